@@ -93,7 +93,10 @@ def _apply_proj(base, projs):
             nm = p.get("name", p["f"])
             if isinstance(nm, str) and nm.isdigit():
                 nm = int(nm)
-            e = ("field", e, nm)
+            if isinstance(nm, int) and isinstance(e, tuple) and e and e[0] == "agg" and e[1] == "tuple" and nm < len(e[3]):
+                e = e[3][nm]      # (a, b).0 is a
+            else:
+                e = ("field", e, nm)
         elif "downcast" in p:
             e = ("downcast", e, p["downcast"])
         elif "index" in p:
@@ -281,6 +284,70 @@ def all_def_exprs(fn, l, depth=64):
         elif dd[0] == "call":
             out.append(call_expr(fn, dd[2], depth, frozenset([l])))
     return out
+
+
+def alternatives(fn, e, limit=16, depth=3):
+    """The expressions e can stand for when its opaque ("local", l, _) leaves are replaced by each of their whole-local definitions
+    (a value assigned on two branches has two alternatives).  Correlation between leaves is deliberately forgotten, so use it only for
+    rules of the form "every alternative satisfies P".  Returns None when there are more than `limit` alternatives or a leaf is
+    assigned through a projection / mutably borrowed (not a plain value)."""
+    if depth < 0:
+        return [e]
+    d = defs_of(fn)
+
+    def expand(x):
+        if not isinstance(x, tuple) or not x:
+            return [x]
+        if x[0] == "local":
+            l = x[1]
+            ds = d.all(l)
+            if not ds or l in d.mut_borrowed or any(dd[0] not in ("stmt", "call") for dd in ds):
+                return [x]
+            outs = []
+            for sub in all_def_exprs(fn, l):
+                if sub == x:
+                    return [x]
+                alts = alternatives(fn, sub, limit, depth - 1)
+                if alts is None:
+                    return None
+                outs.extend(alts)
+            return outs
+        if x[0] == "field" and isinstance(x[2], int):
+            bs = expand(x[1])
+            if bs is None:
+                return None
+            return [b[3][x[2]] if (isinstance(b, tuple) and b and b[0] == "agg" and b[1] == "tuple" and x[2] < len(b[3])) else ("field", b, x[2]) for b in bs]
+        if isinstance(x[0], str):
+            parts = [[x[0]]]
+            for c in x[1:]:
+                if isinstance(c, tuple) and c and isinstance(c[0], str):
+                    alts = expand(c)
+                    if alts is None:
+                        return None
+                elif isinstance(c, tuple):
+                    alts = [()]
+                    for y in c:
+                        ys = expand(y) if isinstance(y, tuple) else [y]
+                        if ys is None:
+                            return None
+                        alts = [a + (yy,) for a in alts for yy in ys]
+                        if len(alts) > limit:
+                            return None
+                else:
+                    alts = [c]
+                parts = [p_ + [a] for p_ in parts for a in alts]
+                if len(parts) > limit:
+                    return None
+            return [tuple(p_) for p_ in parts]
+        return [x]
+    out = expand(e)
+    if out is None or len(out) > limit:
+        return None
+    uniq = []
+    for o in out:
+        if o not in uniq:
+            uniq.append(o)
+    return uniq
 
 
 def mentions_deep(fn, e, pred, _seen=None, depth=6):
